@@ -47,6 +47,18 @@ def oracle(ctx):
                     ctx.oracle_fail(f"not monotone in the entity count: {c} passes but {c+1} suppressed", case)
                 if sd == 0 and (low != (c < lt)):
                     ctx.oracle_fail(f"sd=0: decision is not the hard floor (count {c}, lt {lt}, suppressed {low})", case)
+            if len(ts) >= 2 and R.random() < 0.6:
+                # several id columns, seeds fixed: more entities in any one column never turn a passing group into a suppressed one, fewer never the
+                # other way round (the steps are large enough to change which column holds the fewest entities)
+                P = SuppressionParams(lt, sd, gap)
+                for k in range(len(ts)):
+                    for step in (1, 2, 5, 40):
+                        up = [(c + step if i == k else c, U64(sd_)) for i, (c, sd_) in enumerate(ts)]
+                        dn = [(max(c - step, 0) if i == k else c, U64(sd_)) for i, (c, sd_) in enumerate(ts)]
+                        if not low and A.is_low_count(salt, P, up):
+                            ctx.oracle_fail(f"not monotone in the entity count: trackers {ts} pass but with {step} more entities in id column {k} the group is suppressed", case, "mono-multi")
+                        if low and not A.is_low_count(salt, P, dn):
+                            ctx.oracle_fail(f"not monotone in the entity count: trackers {ts} are suppressed but with {step} fewer entities in id column {k} the group passes", case, "mono-multi")
         elif case["op"] == "ecnt":
             kind, rows, salt = case["kind"], case["rows"], case["salt"]
             p = SuppressionParams(case["lt"], case["sd"], case["gap"])
